@@ -189,6 +189,22 @@ def run(ctx):
             if lib is not None:
                 bad = compare(lib, recs, refs)
                 ctx.check("chunked", bad is None, "np.concatenate(read_chunks)/%s" % (bad[1] if bad else ""), "chunk tables (k=%d) joined: record %s field %s = %r, expected %r" % ((k,) + (bad or (0, 0, 0, 0))), dict(wit, k=k, bad=[str(x) for x in bad] if bad else None), nt and (nt, k, "joined"))
+        # 2c. single records of a row selection of the eagerly read table, the row number a Python int or a NumPy integer
+        if n >= 2:
+            def single_rows():
+                te = bnp.open(path, lazy=False).read()
+                pick = [i_ for i_ in range(n) if i_ % 2 == 0]
+                sub = te[np.array([i_ % 2 == 0 for i_ in range(n)])] if r.random() < 0.5 else te[np.array(pick)]
+                out_ = []
+                for j_ in range(len(pick)):
+                    e_ = sub[np.int64(j_)] if j_ % 2 == 0 else sub[j_]
+                    out_.append((str(e_.name.to_string() if hasattr(e_.name, "to_string") else e_.name), int(e_.position)))
+                return out_, pick
+            got_ = guarded("decode", "eager-selection[row]", single_rows)
+            if got_ is not None:
+                rows_, pick_ = got_
+                want_ = [(recs[i_]["name"], recs[i_]["pos"]) for i_ in pick_]
+                ctx.check("decode", rows_ == want_, "eager-selection[row]/name-or-position", "single rows of an eager row selection gave %r, expected %r" % (rows_[:3], want_[:3]), dict(wit, got=rows_[:6], expected=want_[:6]), nt and (nt, "rows"))
         # 3. reference intervals
         mapped = [x for x in recs]
         if n:
@@ -240,7 +256,12 @@ def run(ctx):
                 state = {}
 
                 def wr():
-                    t = bnp.open(path).read()
+                    if r.random() < 0.4:
+                        with bnp.open(path) as fh_:          # the reader is closed before anything is written (the records are in memory)
+                            t = fh_.read()
+                        ctx.count("tables_written_after_their_reader_was_closed")
+                    else:
+                        t = bnp.open(path).read()
                     st = sel(t)
                     touched = r.random() < 0.5
                     if touched:
